@@ -1,17 +1,28 @@
 import Spok.Generated.Unicode
 import Spok.Basic.Rune
-/-! # Unicode classes, from Go's own range tables (regenerated from the toolchain on every run) -/
+/-! # Unicode classes, from Go's own range tables (regenerated from the toolchain on every run)
+
+Go's `unicode.IsLetter/IsPunct/IsSpace` take a fast path for Latin-1 (a property array for letters and
+punctuation, an explicit switch for spaces) and search the range tables otherwise.  The model does the
+same for ASCII; `Spok/Props/Facts.lean` proves that the ASCII fast paths agree with the regenerated
+tables, and the correspondence run compares the classification of non-ASCII runes on every run. -/
 namespace Spok
 
-def inTable (t : Array (Nat × Nat × Nat)) (c : Nat) : Bool :=
-  t.any fun (lo, hi, stride) => lo ≤ c && c ≤ hi && (c - lo) % stride == 0
+def inTable : List (Nat × Nat × Nat) → Nat → Bool
+  | [], _ => false
+  | (lo, hi, stride) :: t, c => (lo ≤ c && c ≤ hi && (c - lo) % stride == 0) || inTable t c
+
+def asciiLetter (c : Nat) : Bool := (65 ≤ c && c ≤ 90) || (97 ≤ c && c ≤ 122)
+/-- ASCII code points of the Unicode punctuation categories: `! " # % & ' ( ) * , - . / : ; ? @ [ \ ] _ { }` -/
+def asciiPunct (c : Nat) : Bool :=
+  [33, 34, 35, 37, 38, 39, 40, 41, 42, 44, 45, 46, 47, 58, 59, 63, 64, 91, 92, 93, 95, 123, 125].contains c
 
 /-- `unicode.IsSpace`: Latin-1 is special-cased in Go, the rest is the White_Space table -/
 def isSpaceCp (c : Nat) : Bool :=
   if c ≤ 0xFF then c == 9 || c == 10 || c == 11 || c == 12 || c == 13 || c == 32 || c == 0x85 || c == 0xA0
   else inTable Generated.Unicode.space c
-def isLetterCp (c : Nat) : Bool := inTable Generated.Unicode.letter c
-def isPunctCp (c : Nat) : Bool := inTable Generated.Unicode.punct c
+def isLetterCp (c : Nat) : Bool := if c < 128 then asciiLetter c else inTable Generated.Unicode.letter c
+def isPunctCp (c : Nat) : Bool := if c < 128 then asciiPunct c else inTable Generated.Unicode.punct c
 
 def isSpace (r : Rune) : Bool := isSpaceCp r.cp
 def isLetter (r : Rune) : Bool := isLetterCp r.cp
